@@ -93,10 +93,18 @@ def instantiations(tier, seed):
         skels += _two_level()
     else:
         skels += rng.sample(_two_level(), 10)
-    for k, sk in enumerate(skels):
+    # one of each connective (symbolic k on the named cardinality nodes, nested once) through EVERY construction route
+    basics = [F.AL(2, F.a(), F.b(), F.c(), id="A", sign=None), F.AM(1, F.a(), F.b(), F.c(), id="A"), F.N("All", F.a(), F.b(), id="A"),
+              F.N("Any", F.a(), F.b(), id="A"), F.N("Xor", F.a(), F.b(), F.c(), id="A"), F.N("ExactlyOne", F.a(), F.b(), id="A"),
+              F.N("XNor", F.a(), F.b(), F.c(), id="A"), F.N("Imply", F.a(), F.b(), id="A"), F.N("Not", F.N("Any", F.a(), F.b(), id="B")),
+              F.N("All", F.AM(0, F.a(), F.b(), id="B"), F.N("Not", F.AM(1, F.c(), F.d(), id="C")), id="A"),
+              F.N("Imply", F.AM(2, F.a(), F.b(), F.c(), id="B"), F.AL(1, F.c(), F.d(), id="C", sign=None), id="A"),
+              F.N("Any", F.N("Not", F.AL(2, F.a(), F.b(), id="B", sign=None)), F.AM(0, F.c(), id="C"), id="A")]
+    routed = [(sk, how) for sk in basics for how in ("ctor", "json", "ctor-str")]
+    routed += [(sk, ["ctor", "json", "ctor-str"][k % 3]) for k, sk in enumerate(skels)]
+    for k, (sk, how) in enumerate(routed):
         names = F.ALT_NAMES[(k + seed) % len(F.ALT_NAMES)]
         m = F.rename(F.symbolize(sk), names)
-        how = ["ctor", "json", "ctor-str"][k % 3]
         if how == "json":
             m = _strip_sign(m)
         if how == "ctor-str":
